@@ -132,7 +132,9 @@ CHECKS = {
             {"pkg": "./server", "overlay": "server", "pkgname": "server",
              "harnesses": [
                  {"name": "VerifC06FSM", "quick": {"ops": 3, "kinds": 12, "async": 1}, "thorough": {"ops": 4, "kinds": 12, "async": 1}, "replay": "interpreted", "max-paths": 2000000,
-                  "covers": ["done", "history-applied", "restored-from-snapshot", "replayed", "persist-after-later-applies"],
+                  "covers": ["done", "history-applied", "restored-from-snapshot", "replayed", "persist-after-later-applies",
+                             "op-CREATE_STREAM", "op-DELETE_STREAM", "op-PAUSE_STREAM", "op-RESUME_STREAM", "op-SET_STREAM_READONLY", "op-SHRINK_ISR", "op-EXPAND_ISR", "op-CHANGE_LEADER",
+                             "op-CREATE_CONSUMER_GROUP", "op-JOIN_CONSUMER_GROUP", "op-LEAVE_CONSUMER_GROUP", "op-CHANGE_CONSUMER_GROUP_COORDINATOR"],
                   "targets": ["Server).Apply", "Server).Snapshot", "Server).Restore", "Server).finishedRecovery", "metadataAPI).AddStream", "metadataAPI).ResumePartition"]},
              ]},
         ],
@@ -246,6 +248,8 @@ CHECKS = {
                  {"name": "VerifC13GroupSubscribe", "quick": {"steps": 5}, "thorough": {"steps": 6},
                   "covers": ["done", "accepted", "refused", "replaced", "client-cancel", "message"],
                   "targets": ["partition).Subscribe", "partition).removeGroupSubscriber", "subscription).Close"]},
+                 {"name": "VerifC13CancelRace", "quick": {"preemptions": 1}, "thorough": {"preemptions": 2}, "replay": "interpreted", "max-paths": 3000000,
+                  "covers": ["done", "accepted", "refused"], "targets": ["partition).Subscribe", "partition).removeGroupSubscriber", "subscription).Close"]},
                  {"name": "VerifC13Concurrent", "quick": {"preemptions": 1}, "thorough": {"preemptions": 2}, "replay": "interpreted",
                   "covers": ["done", "one-refused"], "targets": ["partition).Subscribe"]},
              ]},
